@@ -342,6 +342,9 @@ func c07(c *an.Check) {
 			an.FuncName(helper) + ": bounds buf[n:]": "the loop body runs only while n < min, and both call sites pass min == len(buf) (EXACTREAD obligation above), so n < len(buf) where buf[n:] is evaluated; n only grows by Read's count, which is at most len(buf[n:])",
 		}})
 	}
+	// (e2) the header writer takes its length prefix from the generated SizeVT: that method sizes each field from the
+	// field itself
+	sizeVTSanity(c, func(rel string) bool { return rel == "transport/controller" })
 	// (f) the lookup the bus actually performs is the one built for this stream: HandleMountedStream directives that differ
 	// in protocol id, local or remote peer are never merged into one lookup (EQUIV obligations of that directive, as in C37)
 	equivCheck(c, func(f *ssa.Function) bool { return strings.Contains(an.FuncName(f), "link.handleMountedStream") })
